@@ -682,7 +682,7 @@ def c04(ctx):
 
 
 # --------------------------------------------------------------------------- schemas
-NTYPES = 26
+NTYPES = 30
 
 
 def sg_cfg(mode, shard, nshards, mutevery):
@@ -720,7 +720,7 @@ def c08(ctx):
     ctx.absorb(ctx.vh_run(args, timeout=3000), args, label="schema/conforming")
     return ctx.finish(
         "model_checking",
-        rule="cases = every inhabitant (up to the value bound) of each of 26 types of the catalogue: every representation "
+        rule="cases = every inhabitant (up to the value bound) of each of 30 types of the catalogue: every representation "
              "strategy (struct map with renames / tuple / stringjoin / listpairs, union keyed / kinded / stringprefix, enum "
              "string / int, typed maps and lists), each nested in others, every optional / nullable / both combination; TLC "
              "checks FromRepr(ReprOf(tv)) = tv and FromType(Feed(tv)) = tv on the specification and emits (type, type-level "
@@ -743,10 +743,61 @@ def c09(ctx):
         "model_checking",
         rule="cases = every local mutation (dropped / duplicated / renamed-to-unknown / renamed-to-another-name / nulled / "
              "retyped / reordered / extra entry or element / wrong container / out-of-range scalar, at every position) of the "
-             "type-level input and of the representation of a hashed sample of the inhabitants of each of the 26 types; "
+             "type-level input and of the representation of a hashed sample of the inhabitants of each of the 30 types; "
              "FromType / FromRepr of Schema.tla give the verdict and, when accepted, the typed value; the harness feeds each "
              "tree to bindnode's builders under recover(): a panic, an acceptance of a non-conforming tree, a refusal of a "
              "conforming one or a node that does not read back as the specified typed value is a disagreement; "
              "non-trivial = every case; distinct = distinct (type, level, input)",
         assumptions=["inputs are fed directly as assembler calls (duplicate keys included)"],
+        exhaustive=not quick)
+
+
+@prop("C13")
+def c13(ctx):
+    import shutil
+    import subprocess
+    import time
+    quick = ctx.tier == "quick"
+    fconf = schema_cases(ctx, "conforming", 1, "conf")
+    fmut = schema_cases(ctx, "mutants", 29 if quick else 5, "mut")
+    src = ctx.harness_src()
+    gen_dir = os.path.join(src, "gen")
+    # (1) run the generator of the working tree
+    args = ["gengo", "-in", fconf, "-out", gen_dir]
+    rep = ctx.vh_run(args)
+    ctx.absorb(rep, None, label="gengo/generate")
+    ntypes = len(rep.get("extra", {}).get("generated_types", []))
+    ctx.notes.append("generated %d types afresh; outside the generator's feature set: %s"
+                     % (ntypes, rep.get("extra", {}).get("outside_generator_feature_set")))
+    # (2) the generated package must compile (together with the runner)
+    os.makedirs(os.path.join(src, "cmd", "genrun"), exist_ok=True)
+    shutil.copy(os.path.join(src, "gentmpl", "genrun_main.go.txt"), os.path.join(src, "cmd", "genrun", "main.go"))
+    genrun = os.path.join(ctx.scratch, "genrun")
+    t0 = time.time()
+    p = subprocess.run(["go", "build", "-tags", "verif", "-o", genrun, "./cmd/genrun"], cwd=src, env=ctx.goenv(),
+                       stdout=subprocess.PIPE, stderr=subprocess.STDOUT, text=True)
+    ctx.log("generated package + runner compiled in %.1fs (rc=%d)" % (time.time() - t0, p.returncode))
+    if p.returncode != 0:
+        if "verifharness/gen" in p.stdout or "/gen/" in p.stdout or "gen/ipldsch" in p.stdout:
+            ctx.groups.append({"key": "gengo | GeneratedPackageCompiles | compile-error", "label": "gengo/compile", "args": None,
+                               "in_flag": "-in", "group": {"count": 1, "first": [{"case": 0, "step": -1, "target": "gengo",
+                               "rule": "GeneratedPackageCompiles", "class": "compile-error", "detail": p.stdout[-3000:]}]}})
+            return ctx.finish("model_checking", rule="generated package failed to compile", exhaustive=False)
+        raise vlib.MachineryError("runner build failed:\n" + p.stdout[-3000:])
+    # (3) the same cases as C08 / C09 on the generated prototypes
+    for label, f, extra in (("conforming", fconf, ["-roundtrip"]), ("mutants", fmut, [])):
+        args = ["-in", f] + extra
+        rep = ctx.vh_run(args, binary=genrun, timeout=3000)
+        ctx.absorb(rep, args, label="genrun/" + label, binary=genrun)
+    return ctx.finish(
+        "model_checking",
+        rule="programs = the type systems of the catalogue inside the generator's feature set (no enum, any, listpairs), "
+             "generated AFRESH by schema/gen/go of the working tree and compiled with a runner (a compile failure is a "
+             "violation); cases = the C08 inhabitants and C09 mutants of those types; the generated prototypes, builders, "
+             "nodes and representation views are compared with the specification exactly as bindnode is (accept / reject, "
+             "typed view, representation view, dag-cbor and dag-json round trip), and bindnode is run on the same case so "
+             "that a disagreement between the engines is visible; non-trivial = every case; distinct = distinct (type, "
+             "level, input)",
+        assumptions=["observational equivalence is decided through the common specification: both engines must agree with "
+                     "Schema.tla on every case (three-way comparison)"],
         exhaustive=not quick)
